@@ -389,6 +389,11 @@ def run(ctx: Ctx) -> None:
                              "blobs written by an older release under the reference `default.pandas_local` fail with 'Requested protocol ... is not registered' although has_blob answers True")
     rep.floor("C17.R14", n14, 3)
     if rep.prop == "C17":
+        from .c09 import load_checks_presence as _lcp
+        rep.rule("C17.R15", "as C09.R18: load decides that a blob is absent by asking has_blob, never by looking at the decoded value: a result that is None is read back as None")
+        n15 = _lcp(ctx, "C17.R15")
+        rep.floor("C17.R15", n15, 1)
+    if rep.prop == "C17":
         from . import c12 as _c12
         rep.rule("C17.R10", "as C12.R1-R4: every storable result is read back equal through the object cache too (the wrapper tests fetched values against None, not for truth: a pandas frame / numpy array has no truth value; it hands the codec it was given to the wrapped store)")
         before_ = len(rep.obligations)
